@@ -668,7 +668,7 @@ func main() {
 	debug.SetGCPercent(200)
 	blocks := space.Blocks(true)
 	blocks = append(blocks, synthetic(blocks)...)
-	maxTx := 2
+	maxTx := 1
 	if c.Thorough() || c.Replay != "" {
 		maxTx = 1000
 	}
